@@ -723,6 +723,10 @@ static void fam_scanners(void)
 	fam_bytes("F2-escape", "\"", "\"\\ud80can/", 7 - d - d, "");
 	fam_bytes("F2-literal", "", "trueTnlNaIify-", 5 - d, "");
 	fam_bytes("F2-comment", "", "/*\na1 ", 6 - d, "");
+	/* the same scanners entered below the top level, after a complete value */
+	fam_bytes("F2-comment-in-array", "[1", "/*\n,2 ", 5 - d, "");
+	fam_bytes("F2-comment-in-object", "{\"a\":[]", "/*\n,} ", 5 - d, "");
+	fam_bytes("F2-literal-in-array", "[", "trueNnl,", 5 - d - d, "]");
 	{
 		/* UTF-8 lead/continuation bytes inside a string */
 		cur_fam = "F2-utf8";
